@@ -58,6 +58,7 @@ def run(prop, tier, seed, workdir, only=None, engines=("E1", "E2"), nproc=16, re
     env = dict(os.environ)
     env["PYTHONPATH"] = config.VERIF + os.pathsep + (repo or config.REPO)
     env["PYTHONDONTWRITEBYTECODE"] = "1"
+    env["PYTHONHASHSEED"] = "0"      # deterministic set/dict iteration in the workers
     env["PCV_REPO"] = repo or config.REPO
     env["PCV_TIER"] = tier
 
